@@ -174,8 +174,14 @@ class TLSPeer:
             self._collect()
 
     # ---- wire
+    paused = False  # the peer application does not read (back-pressure on the other side); see resume()
+
+    def resume(self) -> None:
+        self.paused = False
+        self._drain_rx()
+
     def _on_visible(self) -> None:
-        if self.closed:
+        if self.closed or self.paused:
             return
         if self.shape == "wtr" and self.out_pending:
             return  # stuck in a write: not reading
